@@ -75,7 +75,15 @@ func (un *Unit) execInstr(fr *Frame, st *State, in ssa.Instruction) {
 		if at, ok := et.Underlying().(*types.Array); ok {
 			// array object: lives in the element heap (so that slices of it alias it); element pointers index into it
 			if isStructType(at.Elem()) {
-				un.outside = "array of structs"
+				// elements are sub-objects of the array object; a small array is zero-initialised element by element
+				if at.Len() > 16 {
+					un.outside = "large array of structs"
+					return
+				}
+				for i := int64(0); i < at.Len(); i++ {
+					un.storeStruct(st, un.elemRef(ref, fmt.Sprint(i)), at.Elem(), un.zero(at.Elem()))
+				}
+				un.bind(fr, in, Val{t: ref})
 				return
 			}
 			p := &Place{comp: un.elemComp(at.Elem()), keys: []string{ref}, typ: et}
@@ -122,6 +130,10 @@ func (un *Unit) execInstr(fr *Frame, st *State, in ssa.Instruction) {
 		case *types.Pointer: // pointer to array
 			at := xt.Elem().Underlying().(*types.Array)
 			un.boundsCheck(st, fr, idx, un.intConst(at.Len(), in.Index.Type()), in.Index.Type(), "index", in.Pos())
+			if isStructType(at.Elem()) {
+				un.bind(fr, in, Val{t: un.elemRef(x.t, idx)})
+				return
+			}
 			if x.place != nil {
 				keys := append(append([]string{}, x.place.keys...), idx)
 				un.bind(fr, in, Val{t: "0", place: &Place{comp: x.place.comp, keys: keys, typ: at.Elem(), local: x.place.local}})
@@ -285,7 +297,7 @@ func (un *Unit) execInstr(fr *Frame, st *State, in ssa.Instruction) {
 			if _, isPtr := in.Call.Args[0].Type().Underlying().(*types.Pointer); isPtr {
 				name := "G_spawned"
 				if sc := in.Call.StaticCallee(); sc != nil {
-					name = "G_spawned_" + sanitize(sc.Name())
+					name = "G_spawned_" + strings.ReplaceAll(sanitize(sc.Name()), "$", "_")
 				}
 				c := un.comp(name, arraySort("Int", "Int"), "ghost")
 				x := un.val(fr, in.Call.Args[0]).t
